@@ -841,12 +841,17 @@ TxDelegate(cfg, s, ev) ==
                      w4 == SetDeleg(cfg, w3, d, v, Max2(old, 0) + amt)
                  IN Tx(s, VerifySuper(cfg, w4, v, d, FALSE, IF old >= 0 THEN old ELSE -1))
 
+UnbondHs(w, d, v) == LET r == SelectSeq(w.unbond, LAMBDA u : u.d = d /\ u.v = v) IN IF r = <<>> THEN <<>> ELSE r[1].hs
 TxUndelegate(cfg, s, ev) ==
     LET w0 == Work(s)  d == ev.creator  v == ev.val  amt == ev.amount IN
     IF ~Has(s.vals, "v", v) \/ amt <= 0 \/ DelegShares(s, d, v) < 0 THEN Tx(s, Fail(w0, "no delegation"))
     ELSE LET old == DelegShares(s, d, v) IN
          IF amt > old THEN Tx(s, Fail(w0, "invalid shares amount"))
-         ELSE LET w1 == [w0 EXCEPT !.vol = VolOf(old, d, v)]
+         ELSE IF Len(UnbondHs(s, d, v)) >= 7 THEN Tx(s, Fail(w0, "too many unbonding delegation entries"))
+         ELSE LET w1 == [w0 EXCEPT !.vol = VolOf(old, d, v),
+                                   \* every undelegation adds an unbonding entry (x/staking 0.46 does not merge them)
+                                   !.unbond = SelectSeq(@, LAMBDA u : ~(u.d = d /\ u.v = v))
+                                              \o <<[d |-> d, v |-> v, hs |-> Append(UnbondHs(s, d, v), s.h)]>>]
                   left == old - amt
                   \* hooks run BEFORE the validator's shares are reduced
                   w2 == IF left = 0 THEN SetDeleg(cfg, VerifySuper(cfg, w1, v, d, TRUE, old), d, v, -1)
